@@ -146,11 +146,13 @@ Section Total.
       destruct (Hshape 1 w E) as [(_ & s & ->)|[(Hn & _)|(Hn & _)]]; [reflexivity|discriminate|discriminate]. }
     rewrite H1. cbn [obind].
     assert (Hdata : (match (match msg_get 3 m with Some (VBytes s) => Some s | _ => None end) with
-                     | Some js => Ok js
+                     | Some js => stored_json js
                      | None => obind (field_bytes 2 m) (fun pbytes => any_inner (sfield 1 m) pbytes)
                      end) = Ok t).
     { unfold any_text in Ht. destruct (msg_get 3 m) as [w|] eqn:E3.
-      - destruct (Hshape 3 w E3) as [(Hn & _)|[(Hn & _)|(_ & s & ->)]]; [discriminate|discriminate|]. exact Ht.
+      - destruct (Hshape 3 w E3) as [(Hn & _)|[(Hn & _)|(_ & s & ->)]]; [discriminate|discriminate|].
+        injection Ht as <-. destruct (Hcomp s eq_refl) as (j & Hwj & ->).
+        unfold stored_json. rewrite (parse_print j Hwj). reflexivity.
       - assert (H2 : field_bytes 2 m = Ok (sfield 2 m)).
         { unfold field_bytes, sfield. destruct (msg_get 2 m) as [w|] eqn:E; [|reflexivity].
           destruct (Hshape 2 w E) as [(Hn & _)|[(_ & s & ->)|(Hn & _)]]; [discriminate|reflexivity|discriminate]. }
